@@ -19,6 +19,7 @@ import (
 	"testing"
 	"time"
 
+	"github.com/hashicorp/go-secure-stdlib/base62"
 	"github.com/openbao/openbao/sdk/v2/helper/shamir"
 	kit "github.com/openbao/openbao/sdk/v2/helper/verifkit"
 	"github.com/openbao/openbao/sdk/v2/logical"
@@ -39,6 +40,9 @@ type c10Keys struct {
 	stale  [][][]byte // share sets replaced by completed rekeys
 	term   int        // 1 + completed encryption-key rotations
 	sealed bool
+	// termLoose: an encryption-key rotation failed half-way; until the next unseal the
+	// node may legitimately write under term or term+1 (read-back after unseal decides)
+	termLoose bool
 }
 
 type c10Env struct {
@@ -58,6 +62,10 @@ type c10Env struct {
 	failed bool
 
 	keyOps, readsAfterKeyOp int
+
+	// half[scope]: a key operation on that barrier failed half-way; until the next complete
+	// one its root-key record and keyring may disagree and a reload may be refused
+	half map[string]bool
 }
 
 func (e *c10Env) step(kind, format string, a ...any) {
@@ -95,7 +103,7 @@ func c10NSObj(c *Core) *namespace.Namespace {
 }
 
 func c10Boot(t *testing.T, r *kit.Result, rng *kit.Rand, caseID string, shamirSeal, tx, withNS bool) *c10Env {
-	e := &c10Env{t: t, r: r, rng: rng, caseID: caseID, shamir: shamirSeal, tx: tx, data: map[string]string{}}
+	e := &c10Env{t: t, r: r, rng: rng, caseID: caseID, shamir: shamirSeal, tx: tx, data: map[string]string{}, half: map[string]bool{}}
 	v, err := vBootErr(t, vOpts{Transactional: tx, ShamirSeal: shamirSeal})
 	if err != nil {
 		t.Fatalf("verif: boot failed: %v", err)
@@ -240,6 +248,9 @@ func (e *c10Env) opWrite(scope, kind string) {
 		e.data[scope+"|raw|"+key] = val
 		pe, _ := e.v.Probe.Inner().Get(c10Root, prefix+key)
 		want := e.keys(scope).term
+		if e.keys(scope).termLoose && pe != nil && len(pe.Value) >= 4 && int(binary.BigEndian.Uint32(pe.Value[:4])) == want+1 {
+			want++
+		}
 		if pe == nil || len(pe.Value) < 4 || int(binary.BigEndian.Uint32(pe.Value[:4])) != want {
 			got := -1
 			if pe != nil && len(pe.Value) >= 4 {
@@ -412,6 +423,7 @@ func (e *c10Env) opRotate(scope string) error {
 	}
 	e.keys(scope).term++
 	e.keyOps++
+	e.half[scope] = false
 	e.r.Count("rotations", 1)
 	return nil
 }
@@ -424,6 +436,7 @@ func (e *c10Env) opRootRotate(scope string) error {
 		return err
 	}
 	e.keyOps++
+	e.half[scope] = false
 	e.r.Count("root_rotations", 1)
 	return nil
 }
@@ -533,6 +546,7 @@ func (e *c10Env) opRekey(scope, api string, n, t int, verify bool) ([][]byte, er
 	}
 	e.step("rekey", "rekey %s api=%s -> %d/%d verify=%v ok, %d new share(s)", scope, api, t, n, verify, len(newShares))
 	e.keyOps++
+	e.half[scope] = false
 	e.r.Count("rekeys", 1)
 	if shamirBarrier {
 		if len(newShares) != n {
@@ -555,11 +569,273 @@ func (e *c10Env) opReload(scope string) {
 		err = b.ReloadKeyring(c10Root)
 	}
 	e.step("reload", "reload %s err=%v", scope, err)
+	if err != nil && e.half[scope] {
+		// the node would shut itself down and be unsealed again
+		e.r.Count("observation_reload_refused_after_half_persisted_key_operation", 1)
+		if scope == "root" {
+			e.opSealUnsealRoot()
+		} else {
+			e.opSealUnsealNS()
+		}
+		return
+	}
 	if err != nil {
 		e.viol("reload-failed", "ReloadRootKey/ReloadKeyring on the %s barrier: %v", scope, err)
 		return
 	}
 	e.r.Count("reloads", 1)
+}
+
+// c10F6 is the F6 signature (DESIGN section 3 F6 / section 4 C10) as a predicate over the
+// operation-tagged writes of a rekey or root rotation that became durable (the first k
+// journal entries): (a) of the operation's writes only the stored-keys write is durable
+// (cut between it and the keyring write), or (b) on a Shamir barrier the new keyring is
+// durable but the operation did not reach its last write (KEK copy / seal configuration old).
+// last < 0 means "the operation did not complete" (fault case).
+func c10F6(j []kit.Mutation, k int, last int, shamirBarrier bool) bool {
+	stored, keyringW := -1, -1
+	after := 0
+	for i, m := range j {
+		if i >= k {
+			break
+		}
+		if m.Tag != "c10op" {
+			continue
+		}
+		if stored >= 0 {
+			after++
+		}
+		for _, w := range m.Writes {
+			if stored < 0 && strings.HasSuffix(w.Key, StoredBarrierKeysPath) {
+				stored = i
+			}
+			if stored >= 0 && keyringW < 0 && strings.HasSuffix(w.Key, barrier.KeyringPath) {
+				keyringW = i
+			}
+		}
+	}
+	if stored < 0 || (last >= 0 && k > last) {
+		return false
+	}
+	if after == 0 {
+		return true
+	}
+	return keyringW >= 0 && shamirBarrier
+}
+
+// ---------------------------------------------------------------- root-token generation
+
+// opGenerateRoot runs a generate-root attempt on the barrier of scope: with the currently
+// valid shares it must succeed, with threshold-many shares of which one is foreign it must
+// be refused - and must leave the seal as it was (the histories go on rotating and sealing).
+func (e *c10Env) opGenerateRoot(scope string, genuine bool) {
+	ctx, ns := e.nsCtx(scope)
+	ks := e.keys(scope)
+	shamirBarrier := scope == "ns" || e.shamir
+	supply, thr := ks.shares, ks.thr
+	if !shamirBarrier {
+		supply, thr = e.rec, 3
+	}
+	var shares [][]byte
+	for _, s := range supply[:thr] {
+		shares = append(shares, TestKeyCopy(s))
+	}
+	if !genuine {
+		if thr == 1 {
+			shares[0] = e.rng.Bytes(len(shares[0]))
+		} else {
+			foreign, err := shamir.Split(e.rng.Bytes(32), len(supply), thr)
+			if err != nil {
+				e.t.Fatalf("verif: split: %v", err)
+			}
+			used := map[byte]bool{}
+			for _, s := range shares[:thr-1] {
+				used[s[len(s)-1]] = true
+			}
+			for _, f := range foreign {
+				if !used[f[len(f)-1]] {
+					shares[thr-1] = f
+					break
+				}
+			}
+		}
+	}
+	tl := TokenLength
+	if ns.UUID != namespace.RootNamespaceUUID {
+		tl = NSTokenLength
+	}
+	otp, err := base62.Random(TokenPrefixLength + tl)
+	if err != nil {
+		e.t.Fatalf("verif: otp: %v", err)
+	}
+	_ = e.v.Core.GenerateRootCancel(ctx)
+	if err := e.v.Core.GenerateRootInit(ctx, otp, "", GenerateStandardRootTokenStrategy); err != nil {
+		e.step("generate-root", "generate-root %s init: %v", scope, err)
+		e.viol("generate-root-init-failed", "GenerateRootInit(%s) on an unsealed core: %v", scope, err)
+		return
+	}
+	conf, err := e.v.Core.GenerateRootConfiguration(ctx)
+	if err != nil || conf == nil {
+		e.viol("generate-root-init-failed", "GenerateRootConfiguration(%s): %v", scope, err)
+		return
+	}
+	var res *GenerateRootResult
+	for _, s := range shares {
+		res, err = e.v.Core.GenerateRootUpdate(ctx, s, conf.Nonce, GenerateStandardRootTokenStrategy)
+		if err != nil {
+			break
+		}
+	}
+	e.step("generate-root", "generate-root %s genuine=%v with %d share(s) -> err=%v", scope, genuine, len(shares), err)
+	_ = e.v.Core.GenerateRootCancel(ctx)
+	if genuine {
+		if err != nil || res == nil || res.EncodedToken == "" {
+			e.viol("generate-root-refused-valid-shares", "generate-root on the %s barrier with the %d currently valid shares (threshold %d) was refused: %v", scope, len(shares), thr, err)
+			return
+		}
+		e.r.Count("generate_root_with_valid_shares_ok", 1)
+		return
+	}
+	if err == nil && res != nil && res.EncodedToken != "" {
+		e.viol("generate-root-accepted-wrong-shares", "generate-root on the %s barrier handed out a token for %d shares of which one is foreign", scope, len(shares))
+		return
+	}
+	e.r.Count("generate_root_with_foreign_share_refused", 1)
+}
+
+// ---------------------------------------------------------------- single storage fault inside a key operation
+
+var c10FaultOps = []string{"rotate", "root-rotate", "rekey-sm", "rekey-legacy"}
+
+// opFaulted runs a key operation on the barrier of scope while the k-th storage operation
+// (or k-th write) it issues fails once. If the operation reports an error the core keeps
+// serving: more writes through every front door, then seal + unseal with the shares that
+// are valid for the operator (the old ones: a failed rekey returned none) and read-back.
+func (e *c10Env) opFaulted(scope, op string, writesOnly bool, k int, n, t int) {
+	if scope == "ns" && op == "rekey-legacy" {
+		op = "rekey-sm"
+	}
+	ks := e.keys(scope)
+	shamirBarrier := scope == "ns" || e.shamir
+	oldTerm := ks.term
+	e.v.WaitQuiet(10*time.Millisecond, time.Second)
+	e.v.Probe.Tag("c10op")
+	e.v.Probe.StartJournal()
+	e.v.Probe.FailNth(func(ev kit.Event) bool {
+		return ev.Tag == "c10op" && (!writesOnly || ev.Op == "put" || ev.Op == "delete" || ev.Op == "commit")
+	}, k)
+	e.step("fault", "next key operation (%s on %s) runs with its %s #%d failing once", op, scope, map[bool]string{true: "write", false: "storage operation"}[writesOnly], k)
+	var err error
+	switch op {
+	case "rotate":
+		err = e.opRotate(scope)
+	case "root-rotate":
+		err = e.opRootRotate(scope)
+	case "rekey-sm":
+		_, err = e.opRekey(scope, "sm", n, t, false)
+	case "rekey-legacy":
+		_, err = e.opRekey(scope, "legacy", n, t, false)
+	}
+	fired := e.v.Probe.ClearFaults()
+	j := e.v.Probe.StopJournal()
+	e.v.Probe.Untag()
+	if fired == 0 {
+		e.r.Count("faults_not_reached", 1)
+		if err != nil {
+			e.viol("key-op-failed", "%s(%s) on a fault-free store: %v", op, scope, err)
+		}
+		return
+	}
+	e.r.Count("faults_fired", 1)
+	if err == nil {
+		e.r.Count("faults_fired_operation_reported_success", 1)
+		return
+	}
+	e.r.Count("key_operations_failed_by_fault", 1)
+	e.r.Count("key_operations_failed_by_fault:"+op, 1)
+	e.keyOps++
+	e.half[scope] = true
+	ks.termLoose = true
+	// the core survived: it keeps serving every front door
+	for _, s := range []string{"root", "ns"} {
+		if s == "ns" && e.ns == nil {
+			continue
+		}
+		e.opWrite(s, "raw")
+		e.opWrite(s, "api")
+		if e.failed {
+			return
+		}
+	}
+	// seal + unseal with what the operator holds
+	var ok bool
+	var errs []string
+	if scope == "root" {
+		if serr := TestCoreSeal(e.v.Core); serr != nil {
+			e.viol("seal-failed", "seal: %v", serr)
+			return
+		}
+		e.root.sealed = true
+		if e.ns != nil {
+			e.ns.sealed = true
+		}
+		if e.shamir {
+			ok, errs = c10UnsealShares(e.v.Core, e.root.shares[:e.root.thr])
+		} else {
+			uerr := e.v.Core.UnsealWithStoredKeys(c10Root)
+			ok = uerr == nil && !e.v.Core.Sealed()
+			if uerr != nil {
+				errs = append(errs, uerr.Error())
+			}
+		}
+	} else {
+		if serr := e.v.Core.namespaceStore.SealNamespace(c10Root, c10NSPath); serr != nil {
+			e.viol("seal-failed", "seal namespace: %v", serr)
+			return
+		}
+		e.ns.sealed = true
+		ok, errs = c10UnsealNS(e.v.Core, e.ns.shares[:e.ns.thr])
+	}
+	e.step("unseal", "seal+unseal %s after the failed %s with the shares the operator holds -> %v", scope, op, ok)
+	if !ok {
+		rekeyLike := op == "root-rotate" || strings.HasPrefix(op, "rekey")
+		jw := c10Journal(j)
+		if rekeyLike && c10F6(j, len(j), -1, shamirBarrier) {
+			// same durable state as a crash at that point: the open finding, reached through a fault
+			e.r.Count("f6_state_reached_through_fault", 1)
+			e.failed = true
+			e.r.Violate(c10ClassF6, e.caseID, fmt.Sprintf("[%s] %s on the %s barrier failed on an injected storage fault after its stored-keys write became durable (durable writes %v); after seal the %s barrier opens with no shares the operator holds: %v", e.caseID, op, scope, jw, scope, errs), e.witness())
+			return
+		}
+		e.viol("valid-key-refused-after-failed-key-operation", "%s on the %s barrier failed on an injected storage fault (durable writes of the operation: %v); after seal+unseal the currently valid shares are refused: %v", op, scope, jw, errs)
+		return
+	}
+	if scope == "root" {
+		e.root.sealed = false
+		e.r.Count("unseals_ok", 1)
+		if e.ns != nil {
+			e.unsealNSChecked(e.v)
+			if e.failed {
+				return
+			}
+		}
+	} else {
+		e.ns.sealed = false
+		e.r.Count("ns_unseals_ok", 1)
+	}
+	// the encryption-key term a node loads after the incident: the old one or the next
+	var b barrier.SecurityBarrier = e.v.Core.barrier
+	if scope == "ns" {
+		b = e.v.Core.sealManager.NamespaceBarrier(c10NSPath)
+	}
+	info, ierr := b.ActiveKeyInfo()
+	if ierr != nil || (info.Term != oldTerm && info.Term != oldTerm+1) {
+		e.viol("active-term", "after a failed %s and seal/unseal the %s barrier is at term %v (was %d): %v", op, scope, info, oldTerm, ierr)
+		return
+	}
+	ks.term, ks.termLoose = info.Term, false
+	e.r.Count("failed_key_operations_followed_by_seal_unseal_and_read_back", 1)
+	e.verifyHere("after a failed " + op + " and seal/unseal")
 }
 
 // ---------------------------------------------------------------- sealed-state oracle (core)
@@ -906,6 +1182,10 @@ func TestVerif_C10_CoreHistories(t *testing.T) {
 	r.Require("entries_read_back", 2000/div)
 	r.Require("fresh_write_term_checks_after_rotation", 40/div)
 	r.Require("scan_records_compared", 5000/div)
+	r.Require("generate_root_with_valid_shares_ok", 30/div)
+	r.Require("generate_root_with_foreign_share_refused", 30/div)
+	r.Require("faults_fired", 20/div)
+	r.Require("key_operations_failed_by_fault", 15/div)
 }
 
 func c10History(e *c10Env, nops int) {
@@ -920,9 +1200,9 @@ func c10History(e *c10Env, nops int) {
 		e.r.Count("ops", 1)
 		scope := kit.Pick(e.rng, scopes)
 		switch x := e.rng.Intn(100); {
-		case x < 22:
+		case x < 18:
 			e.opWrite(scope, []string{"raw", "api"}[e.rng.Intn(2)])
-		case x < 36:
+		case x < 29:
 			before := e.scan()
 			if err := e.opRotate(scope); err != nil {
 				e.viol("rotate-failed", "RotateBarrierKey(%s) on an unsealed core: %v", scope, err)
@@ -930,14 +1210,14 @@ func c10History(e *c10Env, nops int) {
 			}
 			e.compareScan(before, "rotate", scope)
 			e.opWrite(scope, "raw")
-		case x < 46:
+		case x < 38:
 			before := e.scan()
 			if err := e.opRootRotate(scope); err != nil {
 				e.viol("root-rotate-failed", "RotateBarrierRootKey(%s) on an unsealed core: %v", scope, err)
 				break
 			}
 			e.compareScan(before, "root-rotate", scope)
-		case x < 64:
+		case x < 52:
 			cfg := kit.Pick(e.rng, c10Configs)
 			api := "sm"
 			if scope == "root" && e.rng.Chance(1, 2) {
@@ -950,11 +1230,31 @@ func c10History(e *c10Env, nops int) {
 				break
 			}
 			e.compareScan(before, "rekey-"+api, scope)
-		case x < 70:
+		case x < 56:
 			e.opReload(scope)
-		case x < 84:
+		case x < 67:
+			genuine := e.rng.Chance(1, 2)
+			e.opGenerateRoot(scope, genuine)
+			if !genuine && !e.failed && e.rng.Chance(1, 2) {
+				// an ordinary share-less root-key rotation right after the refused attempt
+				before := e.scan()
+				if err := e.opRootRotate(scope); err != nil {
+					e.viol("root-rotate-failed", "RotateBarrierRootKey(%s) on an unsealed core: %v", scope, err)
+					break
+				}
+				e.compareScan(before, "root-rotate", scope)
+			}
+		case x < 75:
+			cfg := kit.Pick(e.rng, c10Configs)
+			writesOnly := e.rng.Chance(1, 2)
+			k := 1 + e.rng.Intn(14)
+			if writesOnly {
+				k = 1 + e.rng.Intn(6)
+			}
+			e.opFaulted(scope, kit.Pick(e.rng, c10FaultOps), writesOnly, k, cfg[0], cfg[1])
+		case x < 86:
 			e.opSealUnsealRoot()
-		case x < 92:
+		case x < 93:
 			if e.ns != nil {
 				e.opSealUnsealNS()
 			} else {
@@ -978,6 +1278,102 @@ func c10History(e *c10Env, nops int) {
 			e.opWrite(s, "raw")
 		}
 	}
+}
+
+// ---------------------------------------------------------------- enumerated single faults (core)
+
+func TestVerif_C10_CoreFaults(t *testing.T) {
+	seed := kit.Seed(10)
+	shard, nshards := kit.Shard()
+	r := kit.NewResult(t, "c10-core-faults", seed, "single storage fault inside a key operation on a full core, enumerated: {stored-key, Shamir seal} x {root, namespace barrier} x {rotate, root-rotate, rekey through either API} x write k=1..7 of the operation (and storage operation k=1..12 in the thorough tier) failing once; if the operation reports an error the core keeps serving writes through barrier, namespace barrier and API, is then sealed and unsealed with the shares the operator holds and everything is read back; afterwards a refused generate-root attempt, a root-key rotation, more writes and a restart follow under the ordinary oracles. A refused unseal whose durable writes match the F6 signature is classified as F6. A case is non-trivial when the fault fired")
+	r.Exhaustive = true
+	defer r.Write(t)
+	idx := 0
+	for _, sh := range []bool{false, true} {
+		for _, scope := range []string{"root", "ns"} {
+			for _, op := range c10FaultOps {
+				if scope == "ns" && op == "rekey-legacy" {
+					continue
+				}
+				modes := []bool{true}
+				if kit.Tier() == "thorough" {
+					modes = []bool{true, false}
+				}
+				for _, writesOnly := range modes {
+					maxK := 7
+					if !writesOnly {
+						maxK = 12
+					}
+					for k := 1; k <= maxK; k++ {
+						idx++
+						if idx%nshards != shard {
+							continue
+						}
+						s := "stored"
+						if sh {
+							s = "shamir"
+						}
+						caseID := fmt.Sprintf("cf:%s:%s:%s:w%v:%d", s, scope, op, writesOnly, k)
+						if !kit.WantCase(caseID) {
+							continue
+						}
+						rng := kit.NewRand(seed, 6_000_000+uint64(idx))
+						e := c10Boot(t, r, rng, caseID, sh, idx%2 == 0, scope == "ns")
+						scopes := []string{"root"}
+						if e.ns != nil {
+							scopes = append(scopes, "ns")
+						}
+						for _, sc := range scopes {
+							e.opWrite(sc, "raw")
+							e.opWrite(sc, "api")
+						}
+						if k%2 == 0 && !e.failed {
+							if err := e.opRotate(scope); err != nil {
+								e.viol("rotate-failed", "pre-history rotate: %v", err)
+							}
+						}
+						cfg := c10Configs[(idx/3)%len(c10Configs)]
+						before := r.Get("faults_fired")
+						if !e.failed {
+							e.opFaulted(scope, op, writesOnly, k, cfg[0], cfg[1])
+						}
+						r.Eval(1)
+						if r.Get("faults_fired") > before {
+							r.Nontrivial(caseID)
+						}
+						if !e.failed {
+							e.opGenerateRoot(scope, false)
+						}
+						if !e.failed {
+							if err := e.opRootRotate(scope); err != nil {
+								e.viol("root-rotate-failed", "RotateBarrierRootKey(%s) on an unsealed core: %v", scope, err)
+							}
+						}
+						for _, sc := range scopes {
+							if !e.failed {
+								e.opWrite(sc, "raw")
+							}
+						}
+						if !e.failed {
+							e.opGenerateRoot(scope, true)
+						}
+						if !e.failed {
+							e.opRestart()
+						}
+						e.v.Close()
+						if c10Unexpected(r) > 30 {
+							return
+						}
+					}
+				}
+			}
+		}
+	}
+	r.Require("faults_fired", int64(45/nshards))
+	r.Require("key_operations_failed_by_fault", int64(45/nshards))
+	r.Require("key_operations_failed_by_fault:rotate", int64(9/nshards))
+	r.Require("failed_key_operations_followed_by_seal_unseal_and_read_back", int64(24/nshards))
+	r.Require("generate_root_with_foreign_share_refused", int64(30/nshards))
 }
 
 // ---------------------------------------------------------------- crash prefixes
@@ -1203,21 +1599,7 @@ func c10CrashCase(t *testing.T, r *kit.Result, seed int64, ci int, cs c10Case, p
 	// F6 signature (DESIGN section 3 F6 / section 4 C10), as a predicate over the crash prefix k of a rekey or root rotation:
 	//  (a) of the operation's writes the prefix holds the stored-keys write alone (cut between it and the keyring write), or
 	//  (b) the prefix holds the new keyring but not the operation's last write (Shamir: KEK copy / seal configuration still old).
-	f6 := func(k int) bool {
-		if stored < 0 || k <= stored || k > last {
-			return false
-		}
-		after := 0
-		for _, i := range opWrites {
-			if i > stored && i < k {
-				after++
-			}
-		}
-		if after == 0 {
-			return true
-		}
-		return keyringW >= 0 && k > keyringW && (cs.scope == "ns" || cs.shamir)
-	}
+	f6 := func(k int) bool { return c10F6(j, k, last, cs.scope == "ns" || cs.shamir) }
 	rekeyLike := cs.op == "root-rotate" || strings.HasPrefix(cs.op, "rekey")
 	shamirBarrier := cs.scope == "ns" || cs.shamir
 	replaced := shamirBarrier && newShares != nil && !c10SameShares(oldShares, newShares)
